@@ -256,9 +256,11 @@ func stats() *svc.Stats {
 	var ms runtime.MemStats
 	runtime.ReadMemStats(&ms)
 	s := &svc.Stats{HeapInuse: ms.HeapInuse, HeapAlloc: ms.HeapAlloc, Sys: ms.Sys, Goroutines: runtime.NumGoroutine(), HTFrames: map[string]int{}}
-	buf := make([]byte, 8<<20)
-	nb := runtime.Stack(buf, true)
-	for _, g := range strings.Split(string(buf[:nb]), "\n\n") {
+	if stackBuf == nil {
+		stackBuf = make([]byte, 16<<20)
+	}
+	nb := runtime.Stack(stackBuf, true)
+	for _, g := range strings.Split(string(stackBuf[:nb]), "\n\n") {
 		if m := htFrame.FindStringSubmatch(g); m != nil {
 			s.HTFrames[m[1]]++
 		}
@@ -266,11 +268,12 @@ func stats() *svc.Stats {
 	if ents, err := os.ReadDir("/proc/self/fd"); err == nil {
 		s.FDs = len(ents)
 	}
+	own := ownInodes()
 	for _, f := range []string{"/proc/self/net/tcp", "/proc/self/net/tcp6"} {
 		if data, err := os.ReadFile(f); err == nil {
 			for _, ln := range strings.Split(string(data), "\n")[1:] {
 				fs := strings.Fields(ln)
-				if len(fs) > 9 && fs[3] == "0A" && ownsInode(fs[9]) {
+				if len(fs) > 9 && fs[3] == "0A" && own[fs[9]] {
 					s.Listening++
 				}
 			}
@@ -293,19 +296,20 @@ func stats() *svc.Stats {
 	return s
 }
 
-var inodeCache = map[string]bool{}
+var stackBuf []byte
 
-func ownsInode(inode string) bool {
+func ownInodes() map[string]bool {
+	out := map[string]bool{}
 	ents, err := os.ReadDir("/proc/self/fd")
 	if err != nil {
-		return false
+		return out
 	}
 	for _, e := range ents {
-		if l, err := os.Readlink("/proc/self/fd/" + e.Name()); err == nil && l == "socket:["+inode+"]" {
-			return true
+		if l, err := os.Readlink("/proc/self/fd/" + e.Name()); err == nil && strings.HasPrefix(l, "socket:[") {
+			out[strings.TrimSuffix(strings.TrimPrefix(l, "socket:["), "]")] = true
 		}
 	}
-	return false
+	return out
 }
 
 // sshClient drives a real ssh client over the in-memory connection.
